@@ -165,11 +165,13 @@
       ((eqv? (car list) obj) list)
       (else (memv obj (cdr list)))))
 
-(define (member obj list)
-    (cond
-      ((null? list) #f)
-      ((equal? (car list) obj) list)
-      (else (member obj (cdr list)))))
+(define (member obj list . compare)
+    (let ((same? (if (pair? compare) (car compare) equal?)))
+      (let loop ((list list))
+        (cond
+          ((null? list) #f)
+          ((same? obj (car list)) list)
+          (else (loop (cdr list)))))))
 
 (define (assq obj alist)
     (cond
@@ -185,12 +187,14 @@
           (eqv? (caar alist) obj)) (car alist))
     (else (assv obj (cdr alist)))))
 
-(define (assoc obj alist)
-    (cond
-    ((null? alist) #f)
-    ((and (pair? (car alist))
-          (equal? (caar alist) obj)) (car alist))
-    (else (assoc obj (cdr alist)))))
+(define (assoc obj alist . compare)
+    (let ((same? (if (pair? compare) (car compare) equal?)))
+      (let loop ((alist alist))
+        (cond
+          ((null? alist) #f)
+          ((and (pair? (car alist))
+                (same? obj (caar alist))) (car alist))
+          (else (loop (cdr alist)))))))
 
 (define (substring string start end)
     (string-copy string start end))
